@@ -252,6 +252,33 @@ def getName (R : Registry) (s : String) (cs : Option Bool := none) : Except Err 
         | .ok d => .ok (p ++ u, { R with units := R.units.insert (p ++ u) d })
       else .ok (u, R)
 
+/-- the loop of `_parse_units_as_container` after tokenisation: canonical names, optional
+    `delta_` substitution, `ret.add(cname, value)`.  Threads the registry (on-the-fly
+    registration of prefixed units). -/
+def parseUnitsLoop (asDelta : Bool) (many : Bool) (cs : Option Bool) :
+    UC → Registry → UC → Except Err (UC × Registry)
+  | [], R, ret => .ok (ret, R)
+  | (name, value) :: t, R, ret =>
+    match R.getName name cs with
+    | .error e => .error e
+    | .ok (cname, R') =>
+      if cname = "" then parseUnitsLoop asDelta many cs t R' ret
+      else
+        let cname' :=
+          if asDelta && (many || value ≠ 1) then
+            match R'.units.find? cname with
+            | some d => if !d.isMult then "delta_" ++ cname else cname
+            | none => cname
+          else cname
+        match ret.add cname' value with
+        | none => .error .key
+        | some ret' => parseUnitsLoop asDelta many cs t R' ret'
+
+/-- `_parse_units_as_container` on an already evaluated `ParserHelper` (scale 1) -/
+def parseUnitsContainer (R : Registry) (units : UC) (asDelta : Bool := true) (cs : Option Bool := none) :
+    Except Err (UC × Registry) :=
+  parseUnitsLoop asDelta (units.length > 1) cs units R []
+
 /-! ### dimensionality and root units -/
 
 /-- sequential fold over the items of a container with early error exit -/
@@ -262,22 +289,25 @@ def foldItems {σ : Type} (step : String → Rat → σ → Except Err σ) : UC 
     | .ok acc' => foldItems step t acc'
     | .error x => .error x
 
+/-- body of the loop of `_get_dimensionality_recurse` for one key (`rec` = the recursive call) -/
+def dimStep (R : Registry) (rec : UC → Rat → UC → Except Err UC) (exp : Rat)
+    (k : String) (e : Rat) (acc : UC) : Except Err UC :=
+  let exp2 := exp * e
+  if isDimName k then
+    match R.dims.find? k with
+    | none => .error .value
+    | some ⟨_, some r⟩ => rec r exp2 acc
+    | some ⟨_, none⟩ => .ok (acc.acc k exp2)
+  else
+    match R.resolve k with
+    | .error x => .error x
+    | .ok (_, none) => .error .key       -- `self._units[""]`
+    | .ok (_, some d) => rec d.ref exp2 acc
+
 /-- `_get_dimensionality_recurse` -/
 def dimRec (R : Registry) : Nat → UC → Rat → UC → Except Err UC
   | 0, _, _, _ => .error .recursion
-  | fuel + 1, ref, exp, acc =>
-    foldItems (fun k e acc =>
-      let exp2 := exp * e
-      if isDimName k then
-        match R.dims.find? k with
-        | none => .error .value
-        | some ⟨_, some r⟩ => dimRec R fuel r exp2 acc
-        | some ⟨_, none⟩ => .ok (acc.acc k exp2)
-      else
-        match R.resolve k with
-        | .error x => .error x
-        | .ok (_, none) => .error .key       -- `self._units[""]`
-        | .ok (_, some d) => dimRec R fuel d.ref exp2 acc) ref acc
+  | fuel + 1, ref, exp, acc => foldItems (R.dimStep (dimRec R fuel) exp) ref acc
 
 def fuelOf (R : Registry) : Nat := R.units.length + R.dims.length + 2
 
@@ -299,24 +329,27 @@ structure RootAcc where
   units : UC := []
   deriving Repr, Inhabited
 
+/-- body of the loop of `_get_root_units_recurse` for one key -/
+def rootStep (R : Registry) (rec : UC → Rat → RootAcc → Except Err RootAcc) (exp : Rat)
+    (k : String) (e : Rat) (acc : RootAcc) : Except Err RootAcc :=
+  let exp2 := exp * e
+  match R.resolve k with
+  | .error x => .error x
+  | .ok (_, none) => .error .key
+  | .ok (key, some d) =>
+    if d.isBase then .ok { acc with units := acc.units.acc key exp2 }
+    else
+      match d.conv.scaleOf with
+      | none => .error .inexact
+      | some s =>
+        match powRat s exp2 with
+        | none => .error .inexact
+        | some f => rec d.ref exp2 { acc with factor := acc.factor * f }
+
 /-- `_get_root_units_recurse` -/
 def rootRec (R : Registry) : Nat → UC → Rat → RootAcc → Except Err RootAcc
   | 0, _, _, _ => .error .recursion
-  | fuel + 1, ref, exp, acc =>
-    foldItems (fun k e acc =>
-      let exp2 := exp * e
-      match R.resolve k with
-      | .error x => .error x
-      | .ok (_, none) => .error .key
-      | .ok (key, some d) =>
-        if d.isBase then .ok { acc with units := acc.units.acc key exp2 }
-        else
-          match d.conv.scaleOf with
-          | none => .error .inexact
-          | some s =>
-            match powRat s exp2 with
-            | none => .error .inexact
-            | some f => rootRec R fuel d.ref exp2 { acc with factor := acc.factor * f }) ref acc
+  | fuel + 1, ref, exp, acc => foldItems (R.rootStep (rootRec R fuel) exp) ref acc
 
 /-- `_get_root_units` with `check_nonmult = False` -/
 def getRootUnits (R : Registry) (u : UC) : Except Err (Rat × UC) :=
